@@ -96,3 +96,14 @@ fn test_fn_as_type_in_struct_field() {
         }
     );
 }
+
+#[test]
+fn test_fn_def_variance() {
+    // Test printing the variance attribute of function definitions.
+    reparse_test!(
+        program {
+            #[variance(Covariant, Contravariant)]
+            fn foo<A, B>(a: A) -> B;
+        }
+    );
+}
